@@ -102,6 +102,9 @@ def check(ctx):
     # shared oracle: operators return new values, operands bound to variables are never updated in place
     import alias_common
     alias_common.run(ctx, prefix="alias")
+    # units keep their factor in a session whose variables are named like them (also like PREFIXED spellings)
+    import namespace_common
+    namespace_common.run(ctx, "ns")
 
 
 # ---- refinement lemmas of the unified pipeline model for this property (Props/Pipeline2.lean): the fragment this check's
